@@ -48,6 +48,15 @@ def judge(ck, pid, trace_events, label, work):
         txt = bytes(e.get("text", [])).decode("latin1") if "text" in e else ""
         ck.violation("%s %s: %s; input %r; %s" % (e["op"], e.get("fmt"), why, txt[:300], e.get("detail", "")[:200]),
                      {"kind": "formats-event", "event": e, "why": why})
+    scans = [e for e in trace_events if e["op"] == "scan"]
+    if scans:
+        sd = [l for l in v.get("drift", []) if trace_events[l - 1]["op"] == "scan"]
+        ck.extra["extension_scanner_events"] = ck.extra.get("extension_scanner_events", 0) + len(scans)
+        ck.extra["extension_scanner_drift"] = ck.extra.get("extension_scanner_drift", 0) + len(sd)
+        if sd:
+            vlib.log("  [note] extension (Scanner.tla): %d of %d scans differ from the specification (drift, no verdict); "
+                     "first: %s" % (len(sd), len(scans), json.dumps(trace_events[sd[0] - 1])[:300]))
+        v["drift"] = [l for l in v.get("drift", []) if l not in set(sd)]
     if v.get("drift"):
         ck.extra["reader_model_drift_events"] = ck.extra.get("reader_model_drift_events", 0) + len(v["drift"])
         e = trace_events[v["drift"][0] - 1]
@@ -115,23 +124,31 @@ def run_formats(ck, tier, pid):
             if r.violated != "RoundTrip":
                 raise vlib.Infra("negative control (reader dropping an unterminated last line) not refuted: %s" % r.violated)
             ck.mc("FormatsNeg(bed)", r, "as-found reader (last unterminated line dropped) refuted")
+            # extension: the Scanner state machine computes ScanOutcome (used by the trace specification)
+            r = vlib.tlc("Formats", "Scanner", "ScannerMC.cfg", workers=2, timeout=300)
+            vlib.tlc_expect_ok(r, "ScannerMC")
+            ck.mc("ScannerMC (extension)", r, "Scanner = leading records + error flag; <=4 reader outcomes")
+            r = vlib.tlc("Formats", "Scanner", "ScannerNeg.cfg", workers=2, timeout=300)
+            if not r.violated:
+                raise vlib.Infra("negative control (Scanner reading on after an error) not refuted")
+            ck.mc("ScannerNeg (extension)", r, "a Scanner that forgets its stored error is refuted")
         ck.exhaustive = True
         # (B) the files of the bounded model through the real readers
         tr = os.path.join(work, "emitted-read.ndjson")
         p = vlib.harness(["formats", "emitted", "-in", emitted, "-out", tr])
         vlib.log("  [emitted] %s of the bounded model read by the real readers" % p.stdout.strip())
         evs = [e for e in vlib.read_ndjson(tr) if prop_of(e) == pid]
-        if not thorough and len(evs) > 9000:
+        if not thorough and len(evs) > 16000:
             import random
             random.Random(ck.seed).shuffle(evs)
-            evs = evs[:9000]
+            evs = evs[:16000]
             ck.exhaustive = False
         judge(ck, pid, evs, "model-files", work)
         withres = [e for e in evs if "results" in e and "text" in e] or [{"text": [], "results": []}]
         mid = withres[len(withres) // 2]
         ck.samples.append({"source": "file emitted by TLC, read by the real reader",
                            "text": bytes(mid["text"]).decode("latin1"), "results": mid["results"][:3]})
-        nontriv = set(json.dumps(e["text"]) for e in evs if len(e["text"]) > 0)
+        nontriv = set(json.dumps(e["text"]) for e in evs if len(e.get("text", [])) > 0)
         # (C) random files through the real writers and readers
         rt = os.path.join(work, "random.ndjson")
         n = 12000 if thorough else 1600
